@@ -94,9 +94,10 @@ CliVerdict(e, bound) ==
           ELSE IF ~so.ok \/ ~se.ok THEN "bad"
           ELSE IF PoisonFetched(S, plan) /\ S.status = "run" THEN
                \* the program asked for input that is not UTF-8: diagnosed, status 1
-               (IF e.code = 1 /\ e.diag /\ IsPrefix(r[1].out, so.cps) /\ IsPrefix(so.cps, S.out) THEN "ok" ELSE "bad")
+               (IF e.code = 1 /\ Len(e.stderr) > Len(Utf8Encode(r[1].err)) /\ IsPrefix(r[1].out, so.cps) /\ IsPrefix(so.cps, S.out)
+                THEN "ok" ELSE "bad")
           ELSE IF S.status = "encerr" THEN
-               (IF e.code = 1 /\ e.diag /\ IsPrefix(so.cps, S.out) THEN "ok" ELSE "bad")
+               (IF e.code = 1 /\ e.diag /\ IsPrefix(so.cps, S.out) THEN "ok" ELSE "bad")        \* diag: stderr not empty
           ELSE IF Running(S, prog) THEN
                \* cut by the bound: possibly non-terminating; only prefix-compatibility is claimed
                (IF (e.timeout \/ e.code \in {0, 1}) /\ (IsPrefix(so.cps, S.out) \/ IsPrefix(S.out, so.cps)) THEN "ok" ELSE "bad")
